@@ -58,7 +58,12 @@ fn frags(rng: &mut Rng, t: usize, c: usize) -> Vec<String> {
     for k in 0..rng.range(0, 3) {
         match rng.below(3) {
             0 => v.push(format!("\x1b[38;5;{}m", rng.below(256))),
-            _ => v.push(format!("p{t}-{c}-{k}")),
+            _ => match rng.below(16) {
+                // longer than std's 1 KiB stdout buffer / a line break inside the record
+                0 => v.push(format!("p{t}-{c}-{k}:{}", "z".repeat(1100))),
+                1 | 2 => v.push(format!("p{t}-{c}-{k}\nl2-{t}-{c}")),
+                _ => v.push(format!("p{t}-{c}-{k}")),
+            },
         }
     }
     v.push("\x1b[0m".into());
@@ -82,7 +87,7 @@ fn generate(scen_seed: u64) -> Scenario {
         let mut calls = Vec::new();
         for c in 0..rng.range(1, 3) {
             if register && rng.chance(1, 2) {
-                calls.push(Call { kind: if rng.chance(2, 3) { Kind::SetGlobal(1 + 2 * rng.below(2) as u8) } else { Kind::GetGlobal }, frags: vec![] });
+                calls.push(Call { kind: if rng.chance(2, 3) { Kind::SetGlobal(*rng.pick(&[0u8, 1, 1, 3, 3])) } else { Kind::GetGlobal }, frags: vec![] });
             }
             let kind = match rng.below(10) {
                 0 => Kind::Print,
@@ -217,7 +222,18 @@ fn register_stress(bad: &std::sync::Mutex<Vec<String>>, rounds: usize) {
             }
         }
     }
-    let fin = code_of(ColorChoice::global());
+    // writers have finished: every further write must be readable at once (a store elided
+    // because it "equals the last request" shows here)
+    let fin0 = code_of(ColorChoice::global());
+    for v in [1u8, 2, 1, 2] {
+        choice_of(v).write_global();
+        let got = code_of(ColorChoice::global());
+        if got != v {
+            bad.lock().unwrap().push(format!("stress: after the writers finished, write_global({:?}) was followed by global() = {:?}", choice_of(v), choice_of(got)));
+        }
+    }
+    choice_of(fin0).write_global();
+    let fin = fin0;
     if !lasts.contains(&fin) {
         bad.lock().unwrap().push(format!(
             "stress: writers finished with last writes {:?} but the register holds {:?}",
@@ -519,10 +535,43 @@ fn miri_run_role(role: &str, miri_seed: u64, rate: &str, scen_seed: u64) -> std:
         .current_dir(format!("{}/c19/miri-sim", std::env::var("VERIF_ROOT").unwrap_or_else(|_| "/verif".to_string())))
         .env("MIRIFLAGS", format!("-Zmiri-seed={miri_seed} -Zmiri-preemption-rate={rate}"))
         .env("CARGO_NET_OFFLINE", "true")
+        // no incremental session directories: concurrent cargo invocations would fight over them
+        // and rustc would print warnings into the stderr we are checking
+        .env("CARGO_INCREMENTAL", "0")
         .env_remove("RUSTFLAGS")
         .stdin(Stdio::null())
         .output()?;
-    Ok(RunResult { status: o.status.code().unwrap_or(-1), out: o.stdout, err: o.stderr })
+    Ok(RunResult { status: o.status.code().unwrap_or(-1), out: o.stdout, err: strip_tool_noise(o.stderr) })
+}
+
+/// cargo and rustc share the child's stderr.  Drop the lines only they can produce (they start at
+/// a line start with a fixed prefix no record of ours has) so that a rebuild racing with the run is
+/// not mistaken for output of the program under test.
+fn strip_tool_noise(err: Vec<u8>) -> Vec<u8> {
+    const NOISE: [&[u8]; 4] = [
+        b"warning: failed to garbage collect incremental compilation session directory",
+        b"    Blocking waiting for file lock",
+        b"   Compiling ",
+        b"    Finished ",
+    ];
+    if !NOISE.iter().any(|n| err.windows(n.len()).any(|w| w == *n)) {
+        return err;
+    }
+    let mut out = Vec::with_capacity(err.len());
+    let mut skip_blank = false;
+    for line in err.split_inclusive(|b| *b == b'\n') {
+        if NOISE.iter().any(|n| line.starts_with(n)) {
+            skip_blank = true;
+            continue;
+        }
+        if skip_blank && line == b"\n" {
+            skip_blank = false;
+            continue;
+        }
+        skip_blank = false;
+        out.extend_from_slice(line);
+    }
+    out
 }
 
 fn native_run(scen_seed: u64) -> std::io::Result<RunResult> {
